@@ -25,8 +25,8 @@ var components = map[string]string{
 
 func (Engine) Plan(property, tier string) core.Plan {
 	p := core.Plan{Level: "exploration", MaxWall: 150, Components: components}
-	runs := map[string]int{"C01": 2400, "C02": 4800, "C03": 5600, "C04": 4800, "C05": 4800, "C06": 4800, "C07": 4800, "C08": 1600,
-		"C09": 3200, "C10": 4800, "C11": 2400, "C12": 2000, "C13": 150, "C14": 2000, "C17": 4800}[property]
+	runs := map[string]int{"C01": 2400, "C02": 4800, "C03": 5600, "C04": 4800, "C05": 4800, "C06": 4800, "C07": 4800, "C08": 3000,
+		"C09": 4000, "C10": 4800, "C11": 4000, "C12": 2000, "C13": 150, "C14": 2000, "C17": 4800}[property]
 	if runs == 0 {
 		runs = 800
 	}
